@@ -8,6 +8,7 @@ from .. import libx, gen
 from bitcoin.core.script import CScript, SignatureHash, SIGVERSION_WITNESS_V0
 
 ID = 'C04'
+THREADSAFE = True      # cases touch no process-wide setting (no chain selection): the runner also runs them from several threads at once
 LEVEL = 'exploration'
 RULE = ('generated transactions (fields over the whole unsigned/signed wire range with boundary bias: lock time and sequences up '
         'to 2^32-1, version int32) x script code of length {0,1,25,252,253,300,65536,random} x every valid input index x amount '
@@ -50,6 +51,10 @@ def check_case(case):
             raise Violation('digest-%s%s' % (base, '-acp' if ht & 0x80 else ''),
                             'BIP143 digest differs for ht=0x%02x idx=%d (%d in/%d out) amount=%d locktime=%d: lib %s ref %s' % (
                                 ht, idx, len(m['vin']), len(m['vout']), amount, m['locktime'], r[1].hex(), want.hex()))
+    for kind, hv in libx.int_kinds(case.get('amount', 0) % 256)[1:]:
+        if libx.call('bip143-hashtype-as-' + kind, SignatureHash, csc, tx, idx, hv, amount=amount, sigversion=SIGVERSION_WITNESS_V0)[1] != \
+                RS.bip143(sc, m, idx, int(hv), amount):
+            raise Violation('digest-hashtype-as-' + kind, 'BIP143 digest differs when the hash type 0x%02x is passed as %s' % (int(hv), kind))
     # the script code held as plain bytes / bytearray / memoryview: the digest commits to the BYTES, whatever holds them
     ht0 = case.get('amount', 0) % 256
     want0 = RS.bip143(sc, m, idx, ht0, amount)
